@@ -1536,19 +1536,21 @@ func (cw *copyWorld) step(f []string) (string, bool) {
 		if err != nil || err2 != nil || err3 != nil || err4 != nil {
 			return "bad-op", true
 		}
+		// the chain library could not build/extend this chain on the code under test (a defect elsewhere in the
+		// transition): answered `genfail`, which the flow classifies as a broken tie, not as a failing input of C15
 		c, err := chain.NewChain(cfg, n, "mixed", seed)
 		if err != nil {
-			return "err", true
+			return "genfail", true
 		}
 		c.Policy = chain.PolicyByName(f[4])
 		if _, err := c.Run(warm); err != nil {
-			return "err", true
+			return "genfail", true
 		}
 		var step *chain.Step
 		for try := 0; try < 4; try++ {
 			st, err := c.NextSlot(&chain.SlotOpts{Propose: true})
 			if err != nil {
-				return "err", true
+				return "genfail", true
 			}
 			if !st.Skipped {
 				step = st
@@ -1556,7 +1558,7 @@ func (cw *copyWorld) step(f []string) (string, bool) {
 			}
 		}
 		if step == nil {
-			return "err", true
+			return "genfail", true
 		}
 		h := &handle{state: chain.WrapState(step.Pre), epc: chain.CopyEpc(step.PreEpc), spec: c.Spec, ch: c, step: step, muts: new([]chain.Mutant),
 			term: []string{strings.Join(append([]string{f[0]}, f[2:]...), " ")}}
